@@ -311,9 +311,13 @@ impl LunarMonth {
     let key: String = format!("{}{}", year, month);
     let mut map: MutexGuard<HashMap<String, Vec<f64>>> = LUNAR_MONTH_CACHE.lock().unwrap();
     let vec: Option<&Vec<f64>> = map.get(&key);
+    #[cfg(tyme4rs_verif)]
+    verif_hooks::emit(if vec.is_some() { "hit" } else { "miss" }, &key, year, month, vec.map(|v| v.clone()).unwrap_or_default());
     match vec {
       Some(v) => instance = Self::from_cache((*v).to_owned()),
       None => {
+        #[cfg(tyme4rs_verif)]
+        verif_hooks::emit_if_refused(&key, year, month);
         instance = Self::new(year, month).unwrap();
         let mut l: Vec<f64> = Vec::new();
         l.push(instance.get_year() as f64);
@@ -321,6 +325,8 @@ impl LunarMonth {
         l.push(instance.get_day_count() as f64);
         l.push(instance.get_index_in_year() as f64);
         l.push(instance.get_first_julian_day().get_day());
+        #[cfg(tyme4rs_verif)]
+        verif_hooks::emit("fill", &key, year, month, l.clone());
         map.insert(key, l);
       }
     }
@@ -1164,6 +1170,102 @@ impl PartialEq for LunarHour {
 }
 
 impl Eq for LunarHour {}
+
+/// Verification hooks (compiled only with `--cfg tyme4rs_verif`): reset and projection of the lunar month
+/// memo, and a trace of memo events emitted while the memo lock is held.
+#[cfg(tyme4rs_verif)]
+pub mod verif_hooks {
+  use std::cell::Cell;
+  use std::sync::Mutex;
+  use std::sync::atomic::{AtomicU64, Ordering};
+
+  use lazy_static::lazy_static;
+
+  use super::{LunarMonth, LUNAR_MONTH_CACHE};
+
+  /// one memo event: `hit` / `miss` (after the probe), `fill` (before the insert), `refuse` (constructor refuses)
+  #[derive(Debug, Clone)]
+  pub struct CacheEvent {
+    pub seq: u64,
+    pub thread: u64,
+    pub kind: &'static str,
+    pub key: String,
+    pub year: isize,
+    pub month: isize,
+    pub value: Vec<f64>,
+  }
+
+  lazy_static! {
+    static ref SINK: Mutex<Option<Vec<CacheEvent>>> = Mutex::new(None);
+  }
+
+  static SEQ: AtomicU64 = AtomicU64::new(0);
+
+  thread_local! {
+    static THREAD: Cell<u64> = Cell::new(0);
+    static QUIET: Cell<bool> = Cell::new(false);
+  }
+
+  /// label the calling thread in emitted events
+  pub fn set_thread(id: u64) {
+    THREAD.with(|t| t.set(id));
+  }
+
+  /// start recording (drops anything recorded before)
+  pub fn install() {
+    let mut g = SINK.lock().unwrap_or_else(|e| e.into_inner());
+    *g = Some(Vec::new());
+  }
+
+  /// stop recording and return the events in lock order
+  pub fn take() -> Vec<CacheEvent> {
+    let mut g = SINK.lock().unwrap_or_else(|e| e.into_inner());
+    g.take().unwrap_or_default()
+  }
+
+  /// called with the memo lock held
+  pub(super) fn emit(kind: &'static str, key: &str, year: isize, month: isize, value: Vec<f64>) {
+    if QUIET.with(|q| q.get()) {
+      return;
+    }
+    let mut g = SINK.lock().unwrap_or_else(|e| e.into_inner());
+    if let Some(v) = g.as_mut() {
+      let seq: u64 = SEQ.fetch_add(1, Ordering::SeqCst);
+      v.push(CacheEvent { seq, thread: THREAD.with(|t| t.get()), kind, key: key.to_string(), year, month, value });
+    }
+  }
+
+  /// called with the memo lock held, before the constructor runs: records `refuse` when it will not return a month
+  pub(super) fn emit_if_refused(key: &str, year: isize, month: isize) {
+    let refused: bool = match std::panic::catch_unwind(|| LunarMonth::new(year, month)) {
+      Ok(Ok(_)) => false,
+      _ => true,
+    };
+    if refused {
+      emit("refuse", key, year, month, Vec::new());
+    }
+  }
+
+  /// empty the memo (and clear a poisoned lock) so that a history can start cold inside one process
+  pub fn cache_reset() {
+    LUNAR_MONTH_CACHE.clear_poison();
+    let mut g = LUNAR_MONTH_CACHE.lock().unwrap_or_else(|e| e.into_inner());
+    g.clear();
+  }
+
+  /// whether the memo lock is poisoned
+  pub fn cache_poisoned() -> bool {
+    LUNAR_MONTH_CACHE.is_poisoned()
+  }
+
+  /// projection of the memo: its keys with the stored 5-tuples, sorted by key
+  pub fn cache_entries() -> Vec<(String, Vec<f64>)> {
+    let g = LUNAR_MONTH_CACHE.lock().unwrap_or_else(|e| e.into_inner());
+    let mut l: Vec<(String, Vec<f64>)> = g.iter().map(|(k, v)| (k.clone(), v.clone())).collect();
+    l.sort_by(|a, b| a.0.cmp(&b.0));
+    l
+  }
+}
 
 #[cfg(test)]
 mod tests {
